@@ -835,7 +835,7 @@ inductive ParseResult where
   | expected (span : Span) (expected : List Expected) (instead : Actual)   -- `ParseError::Expected`
   | fault (f : Fault)
 
-def fuelFor (toks : List Token) : Nat := 40 * toks.length + 100
+def fuelFor (toks : List Token) : Nat := 50 * toks.length + 100
 
 /-- `Parser::new(tokens).parse_root_expr()` -/
 def parseWithFuel (fuel : Nat) (toks : List Token) : ParseResult :=
